@@ -181,8 +181,72 @@ fn symbol(v: usize) -> Option<Box<QRCode>> {
     }
 }
 
+/// renders through ImageBuilder (image = a 1x1 PNG data URI, frame colour pure red, white background, 8 px per module)
+/// and compares the bounding box of the red pixels with the frame of the SVG for the same options
+pub fn check_image_builder(c: &FrameCase, q: &QRCode) -> Vec<(String, String)> {
+    use fast_qr::convert::image::ImageBuilder;
+    const PNG1: &str = "data:image/png;base64,iVBORw0KGgoAAAANSUhEUgAAAAEAAAABCAQAAAC1HAwCAAAAC0lEQVR42mNkYAAAAAYAAjCB0C8AAAAASUVORK5CYII=";
+    let n = q.size;
+    let s = n + 2 * c.margin;
+    let scale = 8usize;
+    let model = SvgModel { margin: c.margin, image: Some(PNG1.into()), frame: c.frame, image_size: c.size, image_gap: c.gap, image_position: c.pos, image_background: [255, 0, 0, 255], module_color: [0, 0, 0, 255], ..SvgModel::default() };
+    let g = match subject::guarded(|| model.to_builder().to_str(q)).map_err(|m| m).and_then(|d| geometry(&d)) {
+        Ok(g) => g,
+        Err(e) => return vec![("frame-elements".into(), e)],
+    };
+    let r = subject::guarded(|| {
+        let mut b = ImageBuilder::default();
+        b.margin(c.margin).image(PNG1.to_string()).image_background_color([255, 0, 0, 255]).image_background_shape(FRAMES[c.frame]);
+        if let Some(x) = c.size {
+            b.image_size(x);
+        }
+        if let Some(x) = c.gap {
+            b.image_gap(x);
+        }
+        if let Some((x, y)) = c.pos {
+            b.image_position(x, y);
+        }
+        b.fit_width((s * scale) as u32);
+        let pm = b.to_pixmap(q);
+        let (w, h) = (pm.width() as usize, pm.height() as usize);
+        let (mut x0, mut y0, mut x1, mut y1) = (usize::MAX, usize::MAX, 0usize, 0usize);
+        for (i, p) in pm.pixels().iter().enumerate() {
+            let d = p.demultiply();
+            if d.red() > 200 && d.green() < 60 && d.blue() < 60 && d.alpha() > 200 {
+                let (x, y) = (i % w, i / w);
+                x0 = x0.min(x);
+                y0 = y0.min(y);
+                x1 = x1.max(x);
+                y1 = y1.max(y);
+            }
+        }
+        (w, h, x0, y0, x1, y1)
+    });
+    let (w, _h, x0, y0, x1, y1) = match r {
+        Ok(x) => x,
+        Err(m) => return vec![("panic".into(), format!("ImageBuilder::to_pixmap panicked: {}", m))],
+    };
+    if x0 == usize::MAX {
+        return vec![("frame-not-found-in-pixmap".into(), "no pixel of the frame colour in the ImageBuilder rendering".into())];
+    }
+    let k = w as f64 / s as f64;
+    // the part of the frame inside the canvas, in pixels
+    let clamp = |v: f64| v.max(0.0).min(s as f64) * k;
+    let (ex0, ey0, ex1, ey1) = (clamp(g.fx), clamp(g.fy), clamp(g.fx + g.fside), clamp(g.fy + g.fside));
+    let tol = 3.0 + if c.frame == 2 { 2.0 } else { 0.0 };
+    let mut out = vec![];
+    if (x0 as f64 - ex0).abs() > tol || (y0 as f64 - ey0).abs() > tol || ((x1 + 1) as f64 - ex1).abs() > tol || ((y1 + 1) as f64 - ey1).abs() > tol {
+        out.push(("image-builder-frame-differs-from-svg".into(), format!("frame pixels span x {}..{} y {}..{} in the ImageBuilder rendering, the SVG for the same options puts the frame at x {:.0}..{:.0} y {:.0}..{:.0} (pixels, {} px per module)", x0, x1 + 1, y0, y1 + 1, ex0, ex1, ey0, ey1, k)));
+    }
+    out
+}
+
 pub fn replay(case: &Value) -> Result<Vec<(String, String)>, String> {
     let c = FrameCase::from_json(case).ok_or("malformed frame case")?;
+    if case.get("via").and_then(|v| v.as_str()) == Some("ImageBuilder") {
+        let q = symbol(c.v).ok_or("build failed")?;
+        return Ok(check_image_builder(&c, &q).into_iter().map(|(k, w)| (format!("C18/{}", k), w)).collect());
+    }
     let q = symbol(c.v).ok_or("build failed")?;
     Ok(check_case(&c, &q).0.into_iter().map(|(k, w)| (format!("C18/{}", k), w)).collect())
 }
@@ -222,6 +286,22 @@ pub fn run(ctx: &Ctx) -> Collector {
             }
         }
     }
+    // one-decimal overrides (values that are not exactly representable: 8.2, 0.7, ...): formatting and rounding of
+    // the emitted numbers must not move the frame; v1 and v5, margin 4, square frame
+    let n_grid0 = cases.len();
+    {
+        let step = if ctx.tier.thorough() { 1 } else { 3 };
+        for &v in &[1usize, 5] {
+            for s10 in (50..=100).step_by(step) {
+                for g10 in 0..=10 {
+                    for p10 in (60..=150).step_by(if ctx.tier.thorough() { 1 } else { 7 }) {
+                        cases.push(FrameCase { v, frame: (s10 + g10) % 3, margin: 4, size: Some(s10 as f64 / 10.0), gap: Some(g10 as f64 / 10.0), pos: Some((p10 as f64 / 10.0, (p10 + 5) as f64 / 10.0)) });
+                    }
+                }
+            }
+        }
+    }
+    let n_grid = cases.len() - n_grid0;
     let sides = std::sync::Mutex::new(vec![0.0f64; n_def]);
     pool::par_for(cases.len(), |i| {
         let c = &cases[i];
@@ -256,7 +336,33 @@ pub fn run(ctx: &Ctx) -> Collector {
         }
     }
     col.space(json!({"name": "default placement", "cases": n_def, "what": "all 40 versions x 3 frame shapes x margins 0..=16", "exhaustive": true}));
-    col.space(json!({"name": "overrides", "cases": cases.len() - n_def, "what": format!("sizes {{unset,1,1.5,..,20}} x gaps {{unset,0,.25,.5,1,2,3}} x positions {{unset,(10,10),(12.5,7),(0,0)}} x versions {:?} x margins {{0,3,4}} x 3 frame shapes", vers), "exhaustive": true}));
+    // the second implementor of the Builder trait: ImageBuilder forwards the image options to its inner SvgBuilder;
+    // the frame is located in the rendered pixels (frame colour on a white background, 8 pixels per module) and
+    // compared with the geometry of the SVG for the same options
+    let t_img = std::time::Instant::now();
+    let icases: Vec<FrameCase> = {
+        let mut v = vec![];
+        for frame in [0usize, 2] {
+            for (size, gap, pos) in [(None, None, None), (Some(5.0), Some(1.0), Some((9.5, 19.5))), (Some(4.0), None, Some((18.0, 8.0))), (None, Some(0.5), Some((8.0, 8.0))), (Some(6.0), Some(0.0), None), (Some(3.0), Some(2.0), Some((20.5, 10.0)))] {
+                for ver in [1usize, 3] {
+                    v.push(FrameCase { v: ver, frame, margin: 4, size, gap, pos });
+                }
+            }
+        }
+        v
+    };
+    pool::par_for(icases.len(), |i| {
+        let c = &icases[i];
+        if let Some(q) = &qs[c.v - 1] {
+            for (k, w) in check_image_builder(c, q) {
+                col.violation((2, i as u64), format!("C18/{}", k), format!("v{} frame shape {} size {:?} gap {:?} position {:?}: {}", c.v, c.frame, c.size, c.gap, c.pos, w), { let mut j = c.to_json(); j["via"] = json!("ImageBuilder"); j });
+            }
+            col.eval(Some(crate::util::fnv(format!("img{:?}", c).as_bytes())));
+        }
+    });
+    col.space(json!({"name": "frame through ImageBuilder", "cases": icases.len(), "what": "6 option sets (default, and explicit size/gap/position with x != y) x 2 frame shapes x versions {1,3}: the frame located in the pixels of ImageBuilder::to_pixmap agrees with the SVG geometry", "exhaustive": true, "wall_s": (t_img.elapsed().as_secs_f64() * 100.0).round() / 100.0}));
+    col.space(json!({"name": "one-decimal overrides", "cases": n_grid, "what": "sizes 5.0..10.0 x gaps 0.0..1.0 x positions (p, p+0.5) for p in 6.0..15.0, steps of 0.1 (quick: every third size, every seventh position), versions {1,5}", "exhaustive": true}));
+    col.space(json!({"name": "overrides", "cases": n_grid0 - n_def, "what": format!("sizes {{unset,1,1.5,..,20}} x gaps {{unset,0,.25,.5,1,2,3}} x positions {{unset,(10,10),(12.5,7),(0,0)}} x versions {:?} x margins {{0,3,4}} x 3 frame shapes", vers), "exhaustive": true}));
     col.sample(cases[0].to_json());
     col.sample(cases[n_def - 1].to_json());
     col.sample(cases[cases.len() - 1].to_json());
